@@ -1183,6 +1183,8 @@ def call_opaque(x, st, f: V, pos, kw, node):
     if cbname is not None:
         return call_callback(x, st, src, cbname, pos, kw, node)
     if x.mode == "frame":
+        if isinstance(node.func, ast.Attribute):
+            x.log_call(st, node.func.attr, pos, None, kw)      # opaque method call, logged by method name
         if f.k == "opq" and f.t.rsplit(".", 1)[-1] in PURE_STR_METHODS and not pos and not kw:
             # pure str method on an opaque (string) value: a stable derived name, so that data-flow clauses
             # can say "the trimmed result of ..."
